@@ -535,7 +535,9 @@ var hangLimit = func() time.Duration {
 	if v, err := time.ParseDuration(os.Getenv("VERIF_HANG")); err == nil && v > 0 {
 		return v
 	}
-	return 25 * time.Second
+	// generous: a 12 000-order book on a loaded 16-core machine needs well over 25 s for one ExpireOrders (a false "hang" in the
+	// thorough tier); the endless loop this guards against (fixed in /repo fa48978) never returns at all
+	return 240 * time.Second
 }()
 
 type hangError struct{ what string }
